@@ -1115,6 +1115,47 @@ def ufcs_calls(fn, fns):
     return n
 
 
+def rev_iter_next_to_pop(fn):
+    """D47  `let mut it = v.into_iter().rev(); .. it.next() ..` (v a local vector not used afterwards, `it` used only through `next()`)
+            ->  `.. v.pop() ..`      (the reversed owning iterator hands out the elements last to first, as `pop` does)"""
+    n = 0
+    tys = _TYPES[0] or []
+    for b in list(_walk(fn.get("body"))):
+        if b.get("k") != "block":
+            continue
+        for i, st in enumerate(list(b["stmts"])):
+            init = _unblk(st.get("init")) if st.get("k") == "let" and not st.get("els") and st["pat"].get("k") == "bind" else None
+            if init is None or init.get("k") != "mcall" or init.get("name") != "rev" or init["args"]:
+                continue
+            i1 = _unblk(init["recv"])
+            if i1 is None or i1.get("k") != "mcall" or i1.get("name") != "into_iter" or i1["args"]:
+                continue
+            v = _unblk(i1["recv"])
+            if v is None or v.get("k") != "local":
+                continue
+            ih = st["pat"]["hid"]
+            uses = [x for x in _walk(fn["body"]) if x.get("k") == "local" and x.get("hid") == ih]
+            nexts = [x for x in _walk(fn["body"]) if x.get("k") == "mcall" and x.get("name") == "next" and not x["args"] and _unblk(x["recv"]) is not None
+                     and _unblk(x["recv"]).get("k") == "local" and _unblk(x["recv"])["hid"] == ih]
+            if not uses or len(uses) != len(nexts):
+                continue
+            later = b["stmts"][i + 1:] + ([b["tail"]] if b.get("tail") is not None else [])
+            if any(_mentions(x, v["hid"]) for x in later):
+                continue
+            for x in nexts:
+                rv = {"k": "local", "name": v["name"], "hid": v["hid"], "t": v.get("t"), "line": x.get("line")}
+                if v.get("t") is not None and v["t"] < len(tys) and ("&mut " + tys[v["t"]]) in tys:
+                    rv["ta"] = tys.index("&mut " + tys[v["t"]])
+                x.update({"name": "pop", "callee": "std::vec::Vec::<T, A>::pop", "recv": rv, "from_rev_iter": True})
+            b["stmts"] = [t for t in b["stmts"] if t is not st]
+            # the vector is now popped from: its binding must be mutable
+            for y in list(_walk(fn.get("params") or [])) + list(_walk(fn["body"])):
+                if y.get("k") == "bind" and y.get("hid") == v["hid"]:
+                    y["mode"] = "BindingMode(No, Mut)"
+            n += 1
+    return n
+
+
 def deref_of_ref(fn):
     """D43  `*&X` / `*&mut X`  ->  `X`   (what a by-reference parameter substituted by its argument leaves behind)"""
     n = 0
@@ -4066,6 +4107,7 @@ def run(facts):
         counts["match_guards"] = counts.get("match_guards", 0) + match_guards(fn)
         counts["bool_matches"] = counts.get("bool_matches", 0) + bool_match_to_if(fn)
         counts["loop_break_values"] = counts.get("loop_break_values", 0) + loop_break_value(fn)
+        counts["rev_iter_pop"] = counts.get("rev_iter_pop", 0) + rev_iter_next_to_pop(fn)
         counts["ufcs_calls"] = counts.get("ufcs_calls", 0) + ufcs_calls(fn, facts["fns"])
         counts["tuple_if_let"] = counts.get("tuple_if_let", 0) + tuple_if_let(fn)
         counts["slice_matches"] = counts.get("slice_matches", 0) + slice_pattern_matches(fn)
